@@ -93,7 +93,22 @@ def asciz(state, ascii_text: str) -> bytes:
     return ascii_impl(state, ascii_text) + b"\x00"
 
 
-@metacommand(raw=True)
+def rad50_size(state, string):
+    # Two bytes per three characters, whatever the characters are: later labels
+    # may be known before the codes are (and the codes may mention them)
+    chunks = string.chunks if isinstance(string, types.StringConcatenation) else [string]
+    count = 0
+    for chunk in chunks:
+        if isinstance(chunk, types.AngleBracketedChar):
+            count += 1
+        elif isinstance(chunk, types.QuotedString):
+            count += len(chunk.string)
+        else:
+            return None
+    return (count + 2) // 3 * 2
+
+
+@metacommand(raw=True, size=rad50_size)
 def rad50(state, string: str) -> bytes:
     if isinstance(string, types.StringConcatenation):
         chunks = string.chunks
